@@ -205,6 +205,10 @@ fn main() {
                 lines: 0,
                 aborted: None,
                 prev_allocated: 0,
+                prev_pos: (0, 0),
+                claimed: Vec::new(),
+                depth: 0,
+                last_freed: None,
             };
             let mut mk2 = |c: &Value| mk(c);
             run_root(&mut mk2, &mut ctx);
